@@ -34,7 +34,7 @@ units.vspec:
       verify <module path>::<fn name | *>
       stub   <module path>::<fn name | *>
 """
-import re
+import re, os
 
 FN_KEYS = {'alias', 'implraw', 'tags', 'returns', 'requires', 'ensures', 'decreases', 'unwind', 'dassert', 'paramtype', 'generics', 'where',
            'attr', 'loop', 'proof', 'rename', 'opt', 'recommends', 'site', 'lift', 'template', 'subst', 'selfname', 'paramrename', 'rettype', 'implgenerics', 'nounwind', 'via'}
@@ -232,6 +232,12 @@ def parse_vspec(path, modules):
                     err('raw without end', i)
                 cur_mod.raw.append((buf, (path, i + 2), rest.strip()))
                 i = j + 1
+            elif key == 'rawinclude':
+                if cur_mod is None:
+                    err('rawinclude outside module', i)
+                ip = os.path.join(os.path.dirname(path), rest.strip())
+                cur_mod.raw.append((open(ip).read().split('\n'), (ip, 1), ''))
+                i += 1
             elif key in ('struct', 'enum', 'const', 'type', 'trait'):
                 if cur_mod is None:
                     err('item outside module', i)
